@@ -234,4 +234,136 @@ theorem guardFree_pull (h : Hom.CtlHom c' w.ctl f) (ht : EmitsChecked w.tbl = tr
 
 end pull
 
+/-! ### the logged run level -/
+
+/-- the logged world with the ghost, real controller -/
+def genLogWorldH (cfg : Cfg) : World (FullStHL cfg) := Hom.worldOf (genWorldH cfg) (withLog (fullCtlH cfg))
+
+/-- … cleaned controller -/
+def cleanLogWorldH (cfg : Cfg) : World (FullStHL cfg) := Hom.worldOf (cleanWorldH cfg) (withLog (cleanCtlH cfg))
+
+/-- `handle_end` in the logged world -/
+theorem Full_handleEnd_eq_logged (cfg : Cfg) (d : Disp (FullStHL cfg)) (hI : InvYL cfg d) :
+    (withLog (fullCtlH cfg)).handleEnd d.ctl = (withLog (cleanCtlH cfg)).handleEnd d.ctl := by
+  have h : (fullCtlH cfg).handleEnd d.ctl.1 = (cleanCtlH cfg).handleEnd d.ctl.1 :=
+    Full_handleEnd_eq cfg (Hom.mapD Prod.fst d) hI
+  simp only [C14R.withLog, h]
+
+theorem ops_pull_one {α : Type} {cfg : Cfg} {r1' r2' : Disp (FullStHL cfg) × Except Err α}
+    {r1 r2 : Disp (FullStH cfg) × Except Err α} (he : r1' = r2' ∧ ∀ a, r1'.2 = .ok a → InvYL cfg r1'.1)
+    (hm : (Hom.mapD Prod.fst r1'.1 = r1.1 ∧ r1'.2 = r1.2) ∨ ∃ eA : Err, False ∧ r1'.2 = .error eA)
+    (hu : (IRel (InvY cfg) r1.1 r2.1 ∧ r1.2 = r2.2) ∨ ∃ e, NP e ∧ r1.2 = .error e) :
+    (IRel (InvYL cfg) r1'.1 r2'.1 ∧ r1'.2 = r2'.2) ∨ ∃ e, NP e ∧ r1'.2 = .error e := by
+  obtain ⟨he, _⟩ := he
+  subst he
+  rcases hm with ⟨m1, m2⟩ | ⟨_, hf, _⟩
+  · rcases hu with ⟨⟨_, hI⟩, _⟩ | ⟨e, hG, hr⟩
+    · exact Or.inl ⟨⟨rfl, show InvY cfg (Hom.mapD Prod.fst r1'.1) by rw [m1]; exact hI⟩, rfl⟩
+    · exact Or.inr ⟨e, hG, by rw [m2]; exact hr⟩
+  · exact hf.elim
+
+/-- `CtlRelT` in the logged world -/
+theorem Full_relT_logged (cfg : Cfg) :
+    CtlRelT (genLogWorldH cfg) (withLog (cleanCtlH cfg)) (XT (KL cfg)) (InvYL cfg) NP := by
+  obtain ⟨_, hL⟩ := Full_scan_opsX cfg
+  have hh : Hom.CtlHom (withLog (fullCtlH cfg)) (genWorldH cfg).ctl Prod.fst := withLog_hom (fullCtlH cfg)
+  have hK := fun inp => xt_hom (w := genWorldH cfg) hh (withArgs argSite (andGuard (kindGuard (γ := FullSt cfg)) wmGuard)) inp
+  refine ⟨fun inp => ?_, (CtlSim.withLog (fullCtlH_sim cfg)).bailOut, ?_, ?_, fun _ => rfl, hL.np⟩
+  · constructor
+    · rintro lx d _ ⟨rfl, hI⟩
+      exact ops_pull_one ((Full_ops_agree_logged cfg inp).handleTag lx d hI) ((hK inp).handleTag lx d _ rfl)
+        ((hL.ops inp).handleTag lx _ _ ⟨rfl, hI⟩)
+    · rintro lx d _ ⟨rfl, hI⟩
+      exact ops_pull_one ((Full_ops_agree_logged cfg inp).handleNonTag lx d hI) ((hK inp).handleNonTag lx d _ rfl)
+        ((hL.ops inp).handleNonTag lx _ _ ⟨rfl, hI⟩)
+    · rintro n ns d _ ⟨rfl, hI⟩
+      exact ops_pull_one ((Full_ops_agree_logged cfg inp).startTagHint n ns d hI) ((hK inp).startTagHint n ns d _ rfl)
+        ((hL.ops inp).startTagHint n ns _ _ ⟨rfl, hI⟩)
+    · rintro n d _ ⟨rfl, hI⟩
+      exact ops_pull_one ((Full_ops_agree_logged cfg inp).endTagHint n d hI) ((hK inp).endTagHint n d _ rfl)
+        ((hL.ops inp).endTagHint n _ _ ⟨rfl, hI⟩)
+  · intro d d' inp k hfl hI
+    rcases Hom.hr_flushRemaining (f := Prod.fst) inp k (rfl : Hom.HR Prod.fst d (Hom.mapD Prod.fst d)) with
+      ⟨e, e1, _⟩ | ⟨a, b, e1, e2, hab⟩
+    · rw [hfl] at e1; cases e1
+    · rw [hfl] at e1
+      cases e1
+      show InvY cfg (Hom.mapD Prod.fst d')
+      rw [show Hom.mapD Prod.fst d' = b from hab]
+      exact hL.flush _ _ _ _ e2 hI
+  · intro d hI
+    exact Or.inl (Full_handleEnd_eq_logged cfg d hI)
+
+/-- `Full_parse_eq` in the logged world -/
+theorem Full_parse_eq_logged (cfg : Cfg) (inp : Bytes) (last : Bool) (p : Parser (Disp (FullStHL cfg))) (hI : InvYL cfg p.x.sink)
+    (h2 : Parser.parse (envT (cleanLogWorldH cfg) (XT (KL cfg))) inp last p = Parser.parse (cleanLogWorldH cfg).env inp last p)
+    (h2n : ∀ e, XFires (KL cfg) e → (Parser.parse (cleanLogWorldH cfg).env inp last p).2 ≠ .error e) :
+    Parser.parse (genLogWorldH cfg).env inp last p = Parser.parse (cleanLogWorldH cfg).env inp last p ∧
+    ∀ n, (Parser.parse (genLogWorldH cfg).env inp last p).2 = .ok n →
+      InvYL cfg (Parser.parse (genLogWorldH cfg).env inp last p).1.x.sink := by
+  obtain ⟨g1, g2⟩ := Full_parse_eq_guarded_logged cfg inp last p hI
+  have g1' : Parser.parse (envT (genLogWorldH cfg) (XT (KL cfg))) inp last p =
+      Parser.parse (envT (cleanLogWorldH cfg) (XT (KL cfg))) inp last p := g1
+  have r3 := RelE.parse_relE (tbl := Gen.Syntax.table) (cfg := Gen.Tags.cfg) (inp := inp)
+    (xt_relReal (KL cfg) (genLogWorldH cfg).ctl inp) C03.C03_emitsChecked_gen last p p (PR_refl p)
+  have heq : Parser.parse (envT (genLogWorldH cfg) (XT (KL cfg))) inp last p =
+      Parser.parse (genLogWorldH cfg).env inp last p := by
+    rcases r3 with ⟨hp, hres⟩ | ⟨e, hF, hres⟩
+    · exact Prod.ext (PR_eq' hp) hres
+    · exfalso
+      obtain ⟨s, rfl⟩ := xfires_panic (xfires_pull hF)
+      have hres' : (Parser.parse (envT (genLogWorldH cfg) (XT (KL cfg))) inp last p).2 = .error (.panic s) := hres
+      rw [g1', h2] at hres'
+      exact h2n _ hF hres'
+  rw [← heq]
+  exact ⟨by rw [g1', h2], g2⟩
+
+/-- the complete logged runs with the ghost are the same run -/
+theorem Full_real_eq_clean_HL (cfg : Cfg) (settings : Settings) (chunks : List Bytes) :
+    run (genLogWorldH cfg) (Rewriter.new (genLogWorldH cfg) ((FullSt.init cfg, none), []) settings) chunks =
+      run (cleanLogWorldH cfg) (Rewriter.new (cleanLogWorldH cfg) ((FullSt.init cfg, none), []) settings) chunks := by
+  obtain ⟨hI, _⟩ := Full_scan_opsX cfg
+  have hgf : GuardFreeT (cleanLogWorldH cfg) (XT (KL cfg)) (XFires (KL cfg)) ((FullSt.init cfg, none), []) settings :=
+    guardFree_pull (w := cleanWorldH cfg) (f := Prod.fst) (withLog_hom (cleanCtlH cfg)) C03.C03_emitsChecked_gen
+      (withArgs argSite (andGuard (kindGuard (γ := FullSt cfg)) wmGuard)) (fun e he => xfires_panic he)
+      ((FullSt.init cfg, none), []) settings (Full_clean_guardX' cfg settings)
+  exact run_eqT (w := genLogWorldH cfg) (c2 := withLog (cleanCtlH cfg)) (Full_relT_logged cfg)
+    (fun inp last p hp h2 h2n => Full_parse_eq_logged cfg inp last p hp h2 h2n)
+    (fun d hd => Full_handleEnd_eq_logged cfg d hd) ((FullSt.init cfg, none), []) settings (hI settings.encoding)
+    hgf chunks
+
+/-- the log passes through the ghost `hintCtl` -/
+theorem withLog_hom_lift {γ' γ : Type} {c' : Controller γ'} {c : Controller γ} {f : γ' → γ} (h : Hom.CtlHom c' c f) :
+    Hom.CtlHom (withLog c') (withLog c) (fun g => (f g.1, g.2)) where
+  initialFlags := fun g => h.initialFlags g.1
+  startTag := fun g n ns => ⟨by simp only [C14R.withLog, (h.startTag g.1 n ns).1], (h.startTag g.1 n ns).2⟩
+  auxInfo := fun g i => ⟨by simp only [C14R.withLog, (h.auxInfo g.1 i).1], (h.auxInfo g.1 i).2⟩
+  endTag := fun g n => ⟨by simp only [C14R.withLog, (h.endTag g.1 n).1], (h.endTag g.1 n).2⟩
+  token := fun g t => ⟨by simp only [C14R.withLog, (h.token g.1 t).1], (h.token g.1 t).2⟩
+  shouldEmit := fun g => h.shouldEmit g.1
+  handleEnd := fun g => ⟨by simp only [C14R.withLog, (h.handleEnd g.1).1], (h.handleEnd g.1).2⟩
+  bailOut := fun g e => ⟨by simp only [C14R.withLog, (h.bailOut g.1 e).1], (h.bailOut g.1 e).2⟩
+
+/-- **C14_ranges_real_all.** For every configuration of the REAL controller (handlers rewrite tokens, remove element content,
+fail), every settings record and every history `write* ; end` (any chunking, failing calls included): the source ranges
+of the tokens handed to the controller, in the order they were handed over, are well-formed, ordered and pairwise
+disjoint. No alternative, no hypothesis about the run. -/
+theorem C14_ranges_real_all (cfg : Cfg) (settings : Settings) (chunks : List Bytes) :
+    Ordered (run (logWorld cfg) (Rewriter.new (logWorld cfg) (FullSt.init cfg, []) settings) chunks).1.stream.disp.ctl.2 := by
+  have hh : Hom.CtlHom (withLog (fullCtlH cfg)) (logWorld cfg).ctl (fun g : FullStHL cfg => (g.1.1, g.2)) :=
+    withLog_hom_lift (hintCtl_hom (fullCtl cfg))
+  have r1 := Hom.run_hr (w := logWorld cfg) (c' := withLog (fullCtlH cfg)) (f := fun g : FullStHL cfg => (g.1.1, g.2))
+    hh C03.C03_emitsChecked_gen ((FullSt.init cfg, none), []) settings chunks
+  have hd : Hom.mapD (fun g : FullStHL cfg => (g.1.1, g.2))
+      (run (genLogWorldH cfg) (Rewriter.new (genLogWorldH cfg) ((FullSt.init cfg, none), []) settings) chunks).1.stream.disp =
+      (run (logWorld cfg) (Rewriter.new (logWorld cfg) (FullSt.init cfg, []) settings) chunks).1.stream.disp := r1.1.disp
+  rw [← hd, Full_real_eq_clean_HL]
+  exact C14R.C14_ranges_all_controllers (cleanLogWorldH cfg) (·.2) (withLog_logging _)
+    (withLog_clean _ (cleanCtlH_clean cfg)) C15.C15_gen C03.C03_emitsChecked_gen
+    ((FullSt.init cfg, none), []) rfl settings chunks
+
+/-- non-vacuity: the run of `C14_ranges_real`'s example (six tokens across two writes and `end`) -/
+example : ((run (logWorld obsCfg) (Rewriter.new (logWorld obsCfg) (FullSt.init obsCfg, []) {}) sampleChunks).1.stream.disp.ctl.2.map
+    fun t => (t.src.start, t.src.end)) = [(0, 9), (9, 10), (10, 10), (10, 16), (16, 17), (17, 17)] := by decide +kernel
+
 end LolHtml.Thm.Full
